@@ -9,6 +9,8 @@ package docker
 
 import (
 	"bufio"
+	"bytes"
+	"compress/gzip"
 	"context"
 	"crypto/ecdsa"
 	"crypto/elliptic"
@@ -338,7 +340,7 @@ func c10primaries(frames []string, https bool) (out []c10resp) {
 	if len(frames) == 1 && frames[0] == "cl" {
 		// quick tier: the other two framings for the answers that carry a JSON value (a body without an
 		// up-front length is as good a body)
-		for _, fr := range []string{"chunked", "eof"} {
+		for _, fr := range []string{"chunked", "eof", "gzip"} {
 			for _, b := range []string{"obj0", "objnasty", "arr", "null", "empty"} {
 				out = append(out, c10resp{Status: 200, CT: "json", Body: b, Frame: fr})
 			}
@@ -531,6 +533,15 @@ func (s *c10server) handle(idx int, tc *net.TCPConn) {
 		scheme = "https"
 	}
 	self := fmt.Sprintf("%s://%s:%d%s", scheme, s.ip, s.port, req.URL.RequestURI())
+	if r.Frame == "gzip" {
+		// a server with response compression switched on (Elasticsearch's http.compression, a compressing
+		// proxy): it compresses exactly when the client said it accepts that
+		if strings.Contains(req.Header.Get("Accept-Encoding"), "gzip") {
+			r.Frame = "gzip-yes"
+		} else {
+			r.Frame = "cl"
+		}
+	}
 	s.respond(rw, tc, li, req.Method == "HEAD", r, self)
 }
 
@@ -581,6 +592,15 @@ func (s *c10server) respond(rw net.Conn, tc *net.TCPConn, li int, head bool, r c
 	frame := r.Frame
 	if head {
 		frame, body = "cl", ""
+	}
+	if frame == "gzip-yes" {
+		var zb bytes.Buffer
+		zw := gzip.NewWriter(&zb)
+		zw.Write([]byte(body))
+		zw.Close()
+		body = zb.String()
+		h.WriteString("Content-Encoding: gzip\r\n")
+		frame = "cl"
 	}
 	switch frame {
 	case "cl":
